@@ -1,6 +1,12 @@
 """C14 — estimator answers depend only on what is currently registered; queries are pure."""
+import os
+import sys
+import struct
+import pickle
 import itertools
 import hashlib
+import subprocess
+import threading
 import numpy as np
 from common import F, rs, vs, ms, dyadic, close, call, Toks, parse_rat
 from fitlib import K_text, ub_text
@@ -50,21 +56,167 @@ def parse_digest(toks):
     return out   # [A, K, base, bounds, sc, src, rc, insys, targets, weights]
 
 
+def engine_digest(est, Bprobe):
+    """engine-backed queries (gamut tests, sampling, ranges, fits) of an estimator on fixed probes, then the argument-less
+    queries on the registered targets (they use the working copy self.B); fit() comes last: it replaces the working copy"""
+    out = {}
+    if not hasattr(est, "A"):
+        return out
+    bounded = bool(np.all(np.isfinite(est.ub)))
+    nonneg = bool(np.all(est.lb >= 0))      # chromatic (l1-normalised) queries are only defined for non-negative captures
+    under = est.A.shape[1] > est.A.shape[0]
+    out["in_hull"] = np.asarray(est.in_hull(Bprobe.copy()))
+    X, Bp = est.fit(Bprobe.copy(), solver="CLARABEL")
+    out["fit_pred"] = np.asarray(Bp)
+    if bounded:
+        out["sample"] = np.asarray(est.sample_in_gamut(n=4, seed=7))
+        if nonneg:
+            out["in_hull_norm"] = np.asarray(est.in_hull(Bprobe.copy(), normalized=True))
+        if under:
+            lo, hi = est.range_of_solutions(Bprobe.copy(), error="ignore")
+            out["range"] = np.asarray([lo, hi])
+    if hasattr(est, "B"):
+        out["in_hull_registered"] = np.asarray(est.in_hull())
+        if bounded and under:
+            # argument-less: the range of solutions of the CURRENT targets (working copy; after a fit() the fitted captures)
+            lo, hi = est.range_of_solutions(error="ignore")
+            out["range_registered"] = np.asarray([lo, hi])
+        # fit of the registered targets with the registered weights (last: fit() replaces est.B by the fitted captures)
+        est.fit(solver="CLARABEL")
+        out["fit_registered"] = np.asarray(est.B, dtype=float).copy()
+    return out
+
+
+def make_twin(spec):
+    """a fresh estimator holding the given registered values, reached by the shortest sequence of calls (constructor +
+    one register_targets of the CURRENT targets: after a fit() these are the fitted captures, the model's workB)"""
+    import dreye
+    kw = {} if spec["w0"] is None else dict(w=spec["w0"].copy())
+    if spec["sources"] is not None:
+        kw.update(sources=spec["sources"].copy(), lb=spec["lb"].copy(), ub=spec["ub"].copy())
+    t = dreye.ReceptorEstimator(spec["filt"].copy(), domain=1.0, K=spec["K"].copy(), baseline=spec["baseline"].copy(), **kw)
+    if spec["tgt"] is not None:
+        B, W = spec["tgt"]
+        cur = B if spec["work"] is None else spec["work"]
+        t.register_targets(cur.copy(), W=(None if W is None else W.copy()))
+    return t
+
+
+class FreshProcess:
+    """engine digests of twin estimators, each computed in a process in which NO dreye function has been called before
+    (a server process that only imports dreye and forks one child per request): process-wide state left behind by earlier
+    calls (module-level caches, mutable default arguments) cannot be shared with the estimator under test.
+    Requests are answered concurrently with the main process (a reader thread collects the answers)."""
+
+    def __init__(self):
+        self.p = subprocess.Popen([sys.executable, "-W", "ignore", os.path.abspath(__file__), "--fresh-server"],
+                                  stdin=subprocess.PIPE, stdout=subprocess.PIPE)
+        self.res = {}
+        self.asked = set()
+        self.t = threading.Thread(target=self._reader, daemon=True)
+        self.t.start()
+
+    def _reader(self):
+        try:
+            while True:
+                hdr = self.p.stdout.read(8)
+                if len(hdr) < 8:
+                    return
+                key, st, val = pickle.loads(self.p.stdout.read(struct.unpack("<Q", hdr)[0]))
+                self.res[key] = (st, val)
+        except Exception:  # noqa: BLE001
+            return
+
+    def submit(self, key, spec, Bprobe):
+        self.asked.add(key)
+        data = pickle.dumps((key, spec, Bprobe))
+        try:
+            self.p.stdin.write(struct.pack("<Q", len(data)) + data); self.p.stdin.flush()
+        except OSError as e:
+            self.res[key] = ("err", "fresh-process server not reachable: %s" % e)
+
+    def finish(self):
+        try:
+            self.p.stdin.close()
+        except OSError:
+            pass
+        self.t.join(timeout=1800)
+        try:
+            self.p.wait(timeout=30)
+        except Exception:  # noqa: BLE001
+            self.p.kill()
+
+    def get(self, key):
+        """(digest, None) / (None, error text) / (None, None) when the key was never submitted"""
+        if key not in self.asked:
+            return None, None
+        st, val = self.res.get(key, ("err", "no answer from the fresh-process server"))
+        return (val, None) if st == "ok" else (None, str(val))
+
+
+def _fresh_server():
+    import dreye  # noqa: F401  imported, never called in this (parent) process
+    try:
+        # third-party start-up costs (lazy imports of cvxpy's solver interfaces) are paid once here, not in every child
+        import cvxpy as cp
+        A = np.arange(1.0, 13.0).reshape(3, 4)
+        for attr in (dict(pos=True), {}):
+            x = cp.Variable(4, **attr); w = cp.Parameter(3, pos=True); b = cp.Parameter(3, **attr)
+            prob = cp.Problem(cp.Minimize(cp.sum_squares(cp.multiply(A, w[:, None]) @ x - b)), [x >= np.zeros(4), x <= np.ones(4)])
+            w.value = np.ones(3); b.value = np.ones(3)
+            for solver in ("CLARABEL", "OSQP"):
+                prob.solve(solver=solver)
+        from scipy.optimize import linprog
+        linprog([1.0, 1.0], A_eq=[[1.0, 2.0]], b_eq=[1.0], bounds=[(0, 1), (0, 1)])
+    except Exception:  # noqa: BLE001
+        pass
+    inp, outp = sys.stdin.buffer, sys.stdout.buffer
+    while True:
+        hdr = inp.read(8)
+        if len(hdr) < 8:
+            return
+        key, spec, Bprobe = pickle.loads(inp.read(struct.unpack("<Q", hdr)[0]))
+        r, w = os.pipe()
+        pid = os.fork()
+        if pid == 0:
+            os.close(r)
+            try:
+                res = (key, "ok", engine_digest(make_twin(spec), Bprobe))
+            except BaseException as e:  # noqa: BLE001
+                res = (key, "err", "%s: %s" % (type(e).__name__, str(e)[:300]))
+            with os.fdopen(w, "wb") as f:
+                f.write(pickle.dumps(res))
+            os._exit(0)
+        os.close(w)
+        with os.fdopen(r, "rb") as f:
+            data = f.read()
+        os.waitpid(pid, 0)
+        if not data:
+            data = pickle.dumps((key, "err", "child died without an answer"))
+        outp.write(struct.pack("<Q", len(data)) + data); outp.flush()
+
+
 def run(R):
     import dreye
     quick = R.tier == "quick"
     R.rule = ("histories over the alphabet {register_system, register_bounds, register_adaptation, register_baseline, "
               "register_background_adaptation(add/replace), register_system_adaptation(add/replace), register_targets, fit() of the registered targets} with two "
-              "argument choices each (register_targets: four -- two target sets without importance weights, one with per-filter "
+              "argument choices each (register_system / register_bounds: three -- the third registers signed intensities, i.e. lower "
+              "bounds that are negative for some (register_system) or all (register_bounds) sources; register_targets: four -- two target sets without importance weights, one with per-filter "
               "weights W, one with per-sample-and-filter weights W; the target sets hold targets outside the gamut, so the "
               "weighting decides the fit); default or per-filter constructor weights w: exhaustive up to length %d, random of "
               "length 5-%d beyond; read-only query bundles (captures, "
               "gamut tests, ranges, seeded sampling, fits with explicit targets) interleaved at random. After EVERY step the "
               "estimator's A, K, baseline, bounds, system captures, relative captures, in_system, registered targets and fitting weights W are compared with the Lean "
-              "state machine (exact rationals); at the end of every history the engine-backed queries -- including fit() of the "
-              "registered targets with the registered weights -- are compared with a fresh "
+              "state machine (exact rationals); at the end of every history the engine-backed queries -- including in_hull(), "
+              "range_of_solutions() and fit() of the registered targets (no arguments: they use the current targets, which after a fit() "
+              "are the fitted captures) with the registered weights -- are compared with a fresh "
               "twin estimator holding the same registered values (the values the harness registered last: sources, bounds, K, "
-              "baseline, targets AND their weights); caller arrays are hashed around every call. Non-trivial: the "
+              "baseline, the CURRENT targets AND their weights, registered by the constructor and one register_targets call), once "
+              "in the same process and (random histories, a tenth of the exhaustive ones) once in a fresh process in which no dreye "
+              "function was called before, while the checking process has already served an earlier default-option estimator "
+              "(state leaking through module-level objects / default arguments); chromatic (l1-normalised) queries only under "
+              "non-negative lower bounds; caller arrays are hashed around every call. Non-trivial: the "
               "history contains a re-registration or a query between two registrations." % (2 if quick else 3, 12 if quick else 25))
     rng0 = R.rng(0)
     nf, nd = 3, 6
@@ -84,9 +236,11 @@ def run(R):
     Wf = np.array([1.0, 8.0, 0.0625])[rng0.permutation(nf)]            # per-filter importance weights, far from uniform
     W2 = dyadic(rng0, 0.0625, 8, 4, size=(3, nf))                      # per-sample-and-filter weights (for the 3 targets of B1)
     w0vec = np.array([4.0, 0.25, 1.0])[rng0.permutation(nf)]           # constructor weights `w` (default for targets registered without W)
+    Lneg = -dyadic(rng0, 0.25, 1, 2, size=4)                           # negative lower bounds (intensities relative to a background)
+    Lmix = np.array([-0.5, 0.125, -0.25, 0.0])[rng0.permutation(4)]
     TGT = [(B1, None), (B2, None), (B2, Wf), (B1, W2)]
     reg = {}   # what the harness registered last (targets and their weights), for the twin
-    ALPHA = [("sys", 0), ("sys", 1), ("bnd", 0), ("bnd", 1), ("adp", 0), ("adp", 1), ("bas", 0), ("bas", 1),
+    ALPHA = [("sys", 0), ("sys", 1), ("sys", 2), ("bnd", 0), ("bnd", 1), ("bnd", 2), ("adp", 0), ("adp", 1), ("bas", 0), ("bas", 1),
              ("bga", 0), ("bga", 1), ("sya", 0), ("sya", 1), ("tgt", 0), ("tgt", 1), ("tgt", 2), ("tgt", 3), ("fit", 0)]
 
     def ns_of(est):
@@ -97,11 +251,16 @@ def run(R):
         if op == "sys":
             if arg == 0:
                 est.register_system(S1.copy(), ub=U1.copy()); return "sys %s 0 %s" % (ms(S1), opt_ub(U1))
+            if arg == 2:
+                # signed intensities (relative to a background): lower bounds of mixed sign
+                est.register_system(S1.copy(), lb=Lmix.copy(), ub=U1.copy()); return "sys %s %s %s" % (ms(S1), opt_vec(Lmix), opt_ub(U1))
             est.register_system(S2.copy(), lb=L2.copy()); return "sys %s %s 0" % (ms(S2), opt_vec(L2))
         n = ns_of(est)
         if op == "bnd":
             if arg == 0:
                 lb = (L2 if n == 3 else np.r_[L2, 0.125])[:n]; est.register_bounds(lb=lb.copy()); return "bnd %s 0" % opt_vec(lb)
+            if arg == 2:
+                lb = Lneg[:n]; est.register_bounds(lb=lb.copy()); return "bnd %s 0" % opt_vec(lb)     # all lower bounds negative
             ub = (U1[:n] * 0.5); est.register_bounds(ub=ub.copy()); return "bnd 0 %s" % opt_ub(ub)
         if op == "adp":
             K = K1 if arg == 0 else K2
@@ -162,7 +321,8 @@ def run(R):
             bounded = np.all(np.isfinite(est.ub))
             est.in_hull(arrs["Bprobe"])
             if bounded:
-                est.in_hull(arrs["Bprobe"], normalized=True)
+                if np.all(est.lb >= 0):     # the chromatic (l1-normalised) gamut is only defined for non-negative captures
+                    est.in_hull(arrs["Bprobe"], normalized=True)
                 est.sample_in_gamut(n=3, seed=1)
                 est.gamut_l1_scaling(arrs["Bprobe"]); 
                 if est.A.shape[1] > est.A.shape[0]:
@@ -173,40 +333,22 @@ def run(R):
                 probs.append("caller array `%s` was modified by a query" % k_)
         return probs
 
-    def engine_digest(est):
-        out = {}
-        if not hasattr(est, "A"):
-            return out
-        bounded = bool(np.all(np.isfinite(est.ub)))
-        out["in_hull"] = np.asarray(est.in_hull(Bprobe.copy()))
-        X, Bp = est.fit(Bprobe.copy(), solver="CLARABEL")
-        out["fit_pred"] = np.asarray(Bp)
-        if bounded:
-            out["sample"] = np.asarray(est.sample_in_gamut(n=4, seed=7))
-            out["in_hull_norm"] = np.asarray(est.in_hull(Bprobe.copy(), normalized=True))
-            if est.A.shape[1] > est.A.shape[0]:
-                lo, hi = est.range_of_solutions(Bprobe.copy(), error="ignore")
-                out["range"] = np.asarray([lo, hi])
-        if hasattr(est, "B"):
-            out["in_hull_registered"] = np.asarray(est.in_hull())
-            # fit of the registered targets with the registered weights (last: fit() replaces est.B by the fitted captures)
-            est.fit(solver="CLARABEL")
-            out["fit_registered"] = np.asarray(est.B, dtype=float).copy()
-        return out
+    def spec_of(est, w0):
+        """the registered values of the estimator (bounds, K, baseline read back; targets and weights as the harness registered them)"""
+        has = hasattr(est, "A")
+        return dict(filt=filt, w0=w0, K=np.array(est.K, dtype=float, copy=True), baseline=np.array(est.baseline, dtype=float, copy=True),
+                    sources=(np.array(est.sources, copy=True) if has else None), lb=(est.lb.copy() if has else None),
+                    ub=(est.ub.copy() if has else None), tgt=reg.get("tgt"), work=reg.get("work"))
 
-    def twin_of(est, w0):
-        kw = {} if w0 is None else dict(w=w0.copy())
-        if hasattr(est, "A"):
-            kw.update(sources=np.array(est.sources, copy=True), lb=est.lb.copy(), ub=est.ub.copy())
-        t = dreye.ReceptorEstimator(filt.copy(), domain=1.0, K=np.array(est.K, copy=True), baseline=np.array(est.baseline, copy=True), **kw)
-        if "tgt" in reg:
-            B, W = reg["tgt"]
-            t.register_targets(B.copy(), W=(None if W is None else W.copy()))
-            if "work" in reg:
-                # a fit() after the last register_targets: the working copy is part of the state (model: workB)
-                t.B = reg["work"].copy()
-        return t
-
+    fresh = FreshProcess()
+    # the process has been used before: an earlier, unrelated estimator (default bounds, default options) registered targets, was
+    # queried and fitted. Every history below -- also a single replayed one -- runs in a process with this past; the fresh-process
+    # twins do not share it.
+    earlier = dreye.ReceptorEstimator(filt.copy(), domain=1.0, sources=S1.copy(), ub=U1.copy())
+    earlier.register_targets(Bprobe.copy())
+    query_bundle(earlier, None)
+    earlier.fit()
+    earlier.range_of_solutions(error="ignore")
     histories = []
     for L in range(1, (2 if quick else 3) + 1):
         for h in itertools.product(range(len(ALPHA)), repeat=L):
@@ -256,8 +398,13 @@ def run(R):
                     continue
                 texts.append(apply_impl(est, op, arg))
                 digests.append(("ok", impl_digest(est)))
-            eng = engine_digest(est) if (hk == "rand" or hi % 5 == 0) else None
-            eng_twin = engine_digest(twin_of(est, w0)) if eng is not None else None
+            eng = eng_twin = None
+            if hk == "rand" or hi % 5 == 0:
+                spec = spec_of(est, w0)
+                eng = engine_digest(est, Bprobe)
+                eng_twin = engine_digest(make_twin(spec), Bprobe)
+                if hasattr(est, "A") and (hk == "rand" or hi % 10 == 0):
+                    fresh.submit(k, spec, Bprobe)      # answered concurrently; collected after the last history
         except Exception as e:  # noqa: BLE001
             err = "%s: %s" % (type(e).__name__, str(e)[:200])
             eng = eng_twin = None
@@ -266,11 +413,18 @@ def run(R):
         rereg = len(set(ops_named)) < len(ops_named)
         jobs.append((k, hk, hist, start_registered, digests, problems, err, eng, eng_twin, rereg or queried_between))
         R.count("history:%s" % hk); R.count("length:%d" % len(hist)); R.count("constructor_w:%s" % ("default" if w0 is None else "per-filter"))
+        if eng is not None and hasattr(est, "A"):
+            R.count("lower_bounds_at_end:%s" % ("all >= 0" if np.all(est.lb >= 0) else "all negative" if np.all(est.lb < 0) else "mixed sign"))
+            R.count("twin:%s" % ("same process and fresh process" if k in fresh.asked else "same process"))
+            if "range_registered" in eng:
+                R.count("argument-less range_of_solutions:%s" % ("after fit() (working copy = fitted captures)" if "work" in reg else "targets as registered"))
         if eng is not None and "tgt" in reg:
             R.count("registered_targets_at_end:%s,%s" % ("weights " + ("none" if reg["tgt"][1] is None else "%dD" % reg["tgt"][1].ndim),
                                                       "some outside gamut" if ("in_hull_registered" in eng and not np.all(eng["in_hull_registered"])) else "all inside"))
+    fresh.finish()
     R.driver.run()
     for k, hk, hist, start_registered, digests, problems, err, eng, eng_twin, nontriv in jobs:
+        eng_fresh, fresh_err = fresh.get(k)
         c = dict(k=k, kind=hk, start_registered=start_registered, history=["%s/%d" % (a, b) for a, b in hist])
         R.case(c, (k,) if nontriv else None, sample=(hk == "rand" and k.endswith("3")))
         sig = "C14"
@@ -346,10 +500,19 @@ def run(R):
                 break
         if mismatch:
             R.failB(dict(c, mismatch=mismatch), "the estimator's answers differ from the stateless model of its registered values: " + mismatch, sig + ":state-mismatch")
-        if eng is not None and eng_twin is not None:
+        if fresh_err:
+            R.failA(c, "the twin estimator could not be evaluated in a fresh process: " + fresh_err)
+        for other, where, tag in ((eng_twin, "a fresh estimator", "history-dependence"),
+                                  (eng_fresh, "a fresh estimator in a fresh process (no earlier dreye call)", "process-history-dependence")):
+            if eng is None or other is None:
+                continue
             for key in eng:
-                a, b = eng[key], eng_twin.get(key)
-                tol = 1e-5 if key in ("fit_pred", "fit_registered") else (1e-9 if key == "range" else 0)
+                a, b = eng[key], other.get(key)
+                tol = 1e-5 if key in ("fit_pred", "fit_registered") else (1e-9 if key in ("range", "range_registered") else 0)
                 same = b is not None and a.shape == b.shape and (np.array_equal(a, b) if tol == 0 else np.allclose(a, b, rtol=0, atol=tol * (np.max(np.abs(a)) + 1)))
                 if not same:
-                    R.failB(dict(c, query=key, after_history=a, fresh_twin=b), "`%s` after this history differs from a fresh estimator with the same registered values" % key, sig + ":history-dependence:" + key)
+                    R.failB(dict(c, query=key, after_history=a, fresh_twin=b), "`%s` after this history differs from %s with the same registered values" % (key, where), sig + ":" + tag + ":" + key)
+
+
+if __name__ == "__main__" and sys.argv[1:2] == ["--fresh-server"]:
+    _fresh_server()
